@@ -1,11 +1,14 @@
 package rules
 
 import (
+	_ "embed"
 	"fmt"
 	"go/token"
+	"os"
 	"path/filepath"
 	"sort"
 	"strings"
+	"sync"
 
 	"pgoverif/checker/an"
 	"pgoverif/checker/core"
@@ -66,6 +69,45 @@ func init() {
 var specRows []specRow
 
 func specTable(rows ...specRow) { specRows = append(specRows, rows...) }
+
+//go:embed spec_context.txt
+var specContextText string
+
+// specContext: per table row, the atoms of the pinned specification's path conditions that the row's condition does not
+// mention - the context the row was written in (frozen; regenerate with PGO_GEN_SPECCTX=<file> pgocheck -rule <table>).
+var specContext = func() map[string]map[string]bool {
+	m := map[string]map[string]bool{}
+	for _, l := range strings.Split(specContextText, "\n") {
+		parts := strings.SplitN(l, "\t", 2)
+		if len(parts) != 2 {
+			continue
+		}
+		if m[parts[0]] == nil {
+			m[parts[0]] = map[string]bool{}
+		}
+		if parts[1] != "" {
+			m[parts[0]][parts[1]] = true
+		}
+	}
+	return m
+}()
+
+var specCtxOut = os.Getenv("PGO_GEN_SPECCTX")
+var specCtxMu sync.Mutex
+
+func recordSpecCtx(key string, atoms []string) {
+	specCtxMu.Lock()
+	defer specCtxMu.Unlock()
+	f, err := os.OpenFile(specCtxOut, os.O_APPEND|os.O_CREATE|os.O_WRONLY, 0o644)
+	if err != nil {
+		return
+	}
+	defer f.Close()
+	fmt.Fprintf(f, "%s\t\n", key)
+	for _, a := range atoms {
+		fmt.Fprintf(f, "%s\t%s\n", key, a)
+	}
+}
 
 func runSpecRows(c *core.Ctx, rule string) {
 	tabs, err := scalatab.Load(c.Prog.Root)
@@ -239,7 +281,14 @@ func runSpecRows(c *core.Ctx, rule string) {
 		if cond == "" {
 			cond = "TRUE"
 		}
-		ok, detail, err := v.Equivalent(occs, cond)
+		var rec *[]string
+		if specCtxOut != "" {
+			rec = &[]string{}
+		}
+		ok, detail, err := v.EquivalentCtx(occs, cond, specContext[rule+"|"+key], rec)
+		if rec != nil {
+			recordSpecCtx(rule+"|"+key, *rec)
+		}
 		switch {
 		case err != nil:
 			c.Undecided(key, p, "%v", err)
